@@ -242,6 +242,81 @@ def split_cases(count, seed, K):
     return out
 
 
+UNIFY_ATOMS = {"pu": ["P", "OP1", "O5'", "C1'", "N9", "C4"], "py": ["P", "OP2", "C4'", "C1'", "N1", "C2"]}
+
+
+def unify_cases(count, seed, K):
+    """Pairs of mmCIF files of one molecule for unifier.main --format PDB: the same nucleotides (standard heavy
+    atoms in component order, residues in listing order), other coordinates; the tables need fitting, so each
+    output is fit_to_pdb's answer for its input - judged like a splitter output, one trace case per file."""
+    rng = random.Random(seed * 613 + 29)
+    out = []
+    for k in range(count):
+        chains = sorted(rng.sample(["AA", "AB", "B1", "XYZ", "a1", "C"], rng.randint(1, 3)))
+        atoms, serial = [], 1
+        for ch in chains:
+            start = rng.choice([1, 7, 9998, 10000, 20000])
+            for i in range(rng.randint(1, 3)):
+                resn = rng.choice(["A", "C", "G", "U"])
+                names = UNIFY_ATOMS["pu" if resn in "AG" else "py"]
+                names = [n for n in names if rng.random() < 0.8] or names[:1]
+                for n in names:
+                    atoms.append({"rec": "ATOM", "name": n, "elem": n[0], "alt": "", "resn": resn, "chain": ch,
+                                  "resseq": start + i, "icode": "", "x": rng.randint(-99999, 99999),
+                                  "y": rng.randint(-99999, 99999), "z": rng.randint(-99999, 99999), "occ": 100,
+                                  "b": rng.randint(0, 9999), "charge": 0, "model": 1, "serial": serial})
+                    serial += 1
+        out.append({"id": f"fu{seed}-{k}", "kind": "unify", "gen": "unify", "fmt": "cif", "atoms": atoms})
+    return out
+
+
+def _record_unify(case, rng):
+    warnings.simplefilter("ignore")
+    from rnapolis import parser_v2 as p2
+    from rnapolis import unifier
+    res = []
+    with tempfile.TemporaryDirectory(prefix="verif-c10-unify-") as d:
+        files = []
+        for f in (1, 2):
+            atoms = [dict(a, x=a["x"] + 1000 * (f - 1), b=(a["b"] + 7 * (f - 1)) % 10000) for a in case["atoms"]]
+            text = pt.emit_cif(atoms, rng)
+            src = os.path.join(d, f"in{f}.cif")
+            with open(src, "w") as fh:
+                fh.write(text)
+            files.append((src, atoms, pt.project(p2.parse_cif_atoms(text))["rows"]))
+        outdir = os.path.join(d, "out")
+        argv = sys.argv
+        sys.argv = ["unifier", "-o", outdir, "-f", "PDB"] + [x[0] for x in files]
+        so, se = io.StringIO(), io.StringIO()
+        err = ""
+        try:
+            with contextlib.redirect_stdout(so), contextlib.redirect_stderr(se):
+                try:
+                    unifier.main()
+                except SystemExit as e:
+                    if e.code not in (0, None):
+                        err = "SystemExit"
+                except Exception as e:
+                    err = type(e).__name__
+        finally:
+            sys.argv = argv
+        msg = se.getvalue()
+        for f, (src, atoms, inp) in enumerate(files, 1):
+            c = {"id": f"{case['id']}-f{f}", "kind": "split", "gen": "unify", "fmt": "cif", "can": False, "canerr": "",
+                 "err": err, "same": False, "werr": "", "inp": inp, "out": [], "back": [], "errclass": "", "atoms": atoms}
+            fn = os.path.join(outdir, f"in{f}.pdb")
+            if not c["err"] and f"Error processing {src}" in msg:
+                c["err"] = "ValueError"                   # the tool's own report of fit_to_pdb's refusal
+            elif not c["err"] and not os.path.exists(fn):
+                c["err"] = "NoOutputFile"
+            if not c["err"]:
+                with open(fn) as fh:
+                    c["out"] = pt.project(p2.parse_pdb_atoms(fh.read()))["rows"]
+                c["back"] = c["out"]
+            res.append(c)
+    return res
+
+
 def big_cases(tier, seed, K):
     """Tables too big to log row by row."""
     specs = [("res-9999-in-chain", dict(nres=9999, chain="AA", start=10001)),
@@ -378,6 +453,8 @@ def record(case):
     rng = random.Random(f"{case['id']}")
     if case["kind"] == "split":
         return _record_split(case, rng)
+    if case["kind"] == "unify":
+        return _record_unify(case, rng)
     atoms = case["atoms"] if case["kind"] == "small" else ([] if "corpus" in case["spec"] else _big_atoms(case["spec"]))
     c = {"id": case["id"], "kind": case["kind"], "gen": case["gen"], "fmt": case["fmt"], "can": False, "canerr": "",
          "err": "", "same": False, "werr": "", "inp": [], "out": [], "back": [], "errclass": ""}
